@@ -166,6 +166,9 @@ class CostSpec(cost_spec.CostSpec):
             else:  # Amount - Currency -> Number
                 self.raw_number_comp = copy.deepcopy(amount.raw_number)
                 self.raw_amount_comp = None
+        elif value and self.raw_currency_comp is None and (number := self.raw_number_comp):  # Number + Currency -> Amount
+            self.raw_amount_comp = Amount.from_children(copy.deepcopy(number), value)
+            self.raw_number_comp = None
         else:  # Currency
             self.raw_currency_comp = value
 
